@@ -101,14 +101,14 @@ theorem lines4to9_allSubs (hG : G.WF) (hdl : ∀ e ∈ G.di, e.1 ≠ e.2) (hbl :
                 exact mapM_ok_mem _ _ _ hevs x hx
               obtain ⟨D, hD, hDx⟩ := hxD
               obtain ⟨pillow, hp, hxeq, hfrx, hwU, hnoself, hkD⟩ :=
-                frag_of_district hord hdo hG hdl hbl hfr.good hcg facts hsk hkeysnsi hevs D hD x hDx
+                frag_of_district hord hdo hG hdl hbl hfr.good hcg facts.toD (sKeys_nev facts hsk) hkeysnsi hevs D hD x hDx
               have hsw := sw_of_district hord hdo.subset hG hdl hbl hfr.good hcg facts.nevOK hevs x hx
               have hpspec := markovPillow_spec cf (dordf D) pillow hp
               have hpnode : ∀ v ∈ pillow, v ∈ cf.nodes := by
                 intro v hv
                 obtain ⟨_, s', _, hvs⟩ := (hpspec v).1 hv
                 exact (facts.wf.di_mem _ hvs).1
-              have hmemw := mem_toInterventions_unst facts pillow hpnode
+              have hmemw := mem_toInterventions_unst facts.toD pillow hpnode
               have hDn : ∀ n ∈ D, n ∈ (nsiSubgraph cf).nodes := fun n hn => (districts_cover _ hwfn n).2 ⟨D, hD, hn⟩
               -- a starred-valued non-self-intervened node is a key of the relabelled event
               have hstarkey : ∀ n ∈ (nsiSubgraph cf).nodes, s n.name = true → n ∈ nev.keys := by
